@@ -623,11 +623,25 @@ func Run(sc Scenario) *Result {
 	// ---- wait for the delivery goals (computed from the log exactly as the monitors compute obligations)
 	if pubsOK && !closed {
 		deadline := time.Now().Add(waitLong)
+		lastPending, lastLen := -1, 0
+		nextProgressCheck := time.Now()
 		for {
 			// the marker must describe the log exactly as it is when it is written: a consumer's nested Publish is not one of the
 			// publishers waited for above and may log a new message at any moment (false alarm of sweep 8, C04 thorough seed 51)
 			if rec.LogIf(func(evs []Event) bool { return len(PendingGoals(evs, sc)) == 0 }, "goals") {
 				break
+			}
+			// the bound is on the time without progress, not on the whole wait: a backlog of thousands of messages on a loaded machine
+			// legitimately takes longer than the bound (false alarm of sweep 9, C11 thorough seed 65)
+			if now := time.Now(); now.After(nextProgressCheck) {
+				nextProgressCheck = now.Add(250 * time.Millisecond)
+				if n := rec.Len(); n != lastLen {
+					lastLen = n
+					if p := len(PendingGoals(rec.Snapshot(), sc)); p != lastPending {
+						lastPending = p
+						deadline = now.Add(waitLong)
+					}
+				}
 			}
 			if time.Now().After(deadline) {
 				res.Stuck = append(res.Stuck, fmt.Sprintf("delivery goals not reached: %v", PendingGoals(rec.Snapshot(), sc)))
